@@ -80,6 +80,15 @@ type Config struct {
 	// RequestTimeout is timeout duration for all synchronous requests over SecureChannel.
 	// If the Server doesn't respond within RequestTimeout time, Client returns StatusBadTimeout
 	RequestTimeout time.Duration
+
+	// AcceptSecurity is consulted by a server side secure channel for every
+	// OpenSecureChannel request with the security policy URI and the message
+	// security mode the client asks for. The channel is only opened if it
+	// returns nil; otherwise the request fails with the returned error, which
+	// should be ua.StatusBadSecurityPolicyRejected or ua.StatusBadSecurityModeRejected.
+	// If it is nil every combination the stack supports is accepted.
+	// It is not used by clients.
+	AcceptSecurity func(policyURI string, mode ua.MessageSecurityMode) error
 }
 
 // SessionConfig is a set of common configurations used in Session.
